@@ -98,6 +98,11 @@ def run(ctx, rep):
         vec = [rng.choice([0.0, 1.0, -1.0, 2.5, -0.5, 1e6, 1e-9]) if rng.random() < 0.3 else rng.uniform(-3, 3) for _ in range(M)]
         if rng.random() < 0.05:
             vec = [0.0] * M
+        elif rng.random() < 0.2:
+            # residuals of every magnitude (a fit that is almost exact, data in small or large units): the definitions are scale-free
+            sc = 10.0 ** rng.choice([-200, -60, -12, -9, -8, -7, -3, 5, 60, 150])
+            vec = [v * sc for v in vec]
+            rep.count("formula_residual_scale", f"{sc:.0e}")
         L = rng.randrange(0, 5)
         row = [rng.uniform(-2, 2) for _ in range(M)]
         rep.case(("formula", tuple(vec), tuple(row), L), len(set(vec)) > 1)
@@ -107,6 +112,22 @@ def run(ctx, rep):
                 with np.errstate(all="ignore"):
                     pv = py_metric(name, vec, L)
                     pdv = py_dmetric(name, vec, [row])[0]
+            # oracle on the real functions: the definition and its derivative in 50-digit arithmetic
+            mvec, mrow = [mpmath.mpf(v) for v in vec], [mpmath.mpf(v) for v in row]
+            ss = sum(v * v for v in mvec)
+            if not (name in ("rmse", "nmll") and ss == 0) and not (name == "mae" and any(v == 0 for v in vec)) \
+                    and all(1e-150 < abs(v) < 1e150 for v in vec if v != 0):
+                wv, wd = mp_metric(name, mvec, L), mp_dmetric(name, mvec, mrow, L)
+                case = {"metric": name, "residual": vec, "jacobian_row": row, "L": L}
+                if not (math.isfinite(pv) and abs(pv - float(wv)) <= 1e-9 * max(abs(float(wv)), 1e-300)):
+                    rep.violate(f"{name} of the residual vector is {pv!r}, its definition gives {mpmath.nstr(wv, 15)}", "C07:fitness-value", case)
+                cond = sum(abs(v * j) for v, j in zip(mvec, mrow)) if name != "mae" else sum(abs(j) for j in mrow)
+                tol = 1e-9 * (abs(float(wd)) + (float(abs(wd) * cond / abs(sum(v * j for v, j in zip(mvec, mrow)))) if name != "mae" and sum(v * j for v, j in zip(mvec, mrow)) != 0 else float(cond)))
+                if not (math.isfinite(pdv) and abs(pdv - float(wd)) <= tol + 1e-300):
+                    rep.violate(f"derivative function of {name} gives {pdv!r}, the derivative of the definition is {mpmath.nstr(wd, 15)}",
+                                "C07:gradient-value", case)
+                else:
+                    rep.count("oracle", "formula derivative agree")
             if ctx.driver_ok:
                 lines.append(f"metric ; {name} ; {L} ; {floats_str(vec)} ; ")
                 meta.append((name, vec, row, L, pv))
